@@ -63,6 +63,12 @@ Print Assumptions quadratic_residual_local.
 Example quadratic_residual_local_nonvacuous :
   (0 <= / 1024 <= / 100)%R /\ RtoC 1 <> RtoC 0 /\ quad_ops_ok (/ 1024) (pert_ops (/ 1024)) (RtoC 1) (RtoC (-5)) (RtoC 2).
 Proof. exact quad_ops_ok_nonvacuous. Qed.
+(* strictly more general than the global form: [sat_ops e] = the perturbing arithmetic whose products of modulus > 1000 "overflow"
+   (0 is returned) is NOT an instance of std_model, yet on x^2 - 5x + 2 every operation performed stays in range *)
+Example quadratic_residual_local_bounded_range_nonvacuous :
+  let e := (/ 1024)%R in
+  (0 <= e <= / 100)%R /\ RtoC 1 <> RtoC 0 /\ ~ std_model e (sat_ops e) /\ quad_ops_ok e (sat_ops e) (RtoC 1) (RtoC (-5)) (RtoC 2).
+Proof. exact sat_ops_ok_lemma. Qed.
 
 (* degree 2, backward form: each returned value is an EXACT root of a quadratic whose three coefficients are within 16 eps,
    relatively and componentwise (the perturbation depends on the root) *)
